@@ -232,7 +232,13 @@ def c16_2(ctx):
                                          "(fingerprint 0f056943 -> f056943) and the supplied spelling are lost, the text no longer matches Bitcoin Core's and does not parse back" % (
                                              k.value, ast.unparse(c0)[:80]), v, mod, key="verbatim:" + k.value))
             else:
-                out.append(ctx.err(spec, "origin of key record field `%s` not recognised: `%s`" % (k.value, ast.unparse(ex)[:80]), v, mod))
+                # verbatim storage is also decided by evaluation: C16.16 supplies both path notations, a fingerprint with a leading zero and multi-digit
+                # account indexes and compares the whole text
+                cells = c16_16(ctx)
+                if cells and all(r.status == "ok" for r in cells):
+                    out.append(ctx.ok(spec, "key record field `%s` reaches the text as supplied: decided by the text-of-a-key-set cells (C16.16)" % k.value, v, mod, key="verbatim:" + k.value))
+                else:
+                    out.append(ctx.err(spec, "origin of key record field `%s` not recognised: `%s`" % (k.value, ast.unparse(ex)[:80]), v, mod))
     return out
 
 
@@ -362,8 +368,18 @@ def c16_4(ctx):
             a = cfg2.nodes[s].ast
             if l is True and isinstance(a, ast.Assign) and isinstance(a.value, ast.Call) and call_name(a.value) == "sorted" and "xpub_parent" in ast.unparse(a.value):
                 good = True
-    out.append(ctx.ok(spec2, "key records are sorted by parent xpub before the text is generated", t2[0].ast, mod2, key="sorted-records") if good else
-               ctx.bad(spec2, "key records are not sorted before the descriptor text is generated", fn2, mod2, key="sorted-records"))
+    if not good:
+        # the order of the records in the text is also decided by evaluation (C16.16: every supply order gives the text sorted by the xpub shown);
+        # the syntactic form `x = sorted(..., key=xpub_parent)` is the fallback reading
+        cells = c16_16(ctx)
+        by_cells = bool(cells) and all(r.status == "ok" for r in cells)
+    else:
+        by_cells = False
+    if by_cells:
+        out.append(ctx.ok(spec2, "key records reach the text sorted by parent xpub: decided by the text-of-a-key-set cells (C16.16)", fn2, mod2, key="sorted-records"))
+    else:
+        out.append(ctx.ok(spec2, "key records are sorted by parent xpub before the text is generated", t2[0].ast, mod2, key="sorted-records") if good else
+                   ctx.bad(spec2, "key records are not sorted before the descriptor text is generated", fn2, mod2, key="sorted-records"))
     # the text is generated from the sorted list
     loops = [lp for lp in cfg2.loops.values() if isinstance(lp.stmt, ast.For) and any(isinstance(x, ast.AugAssign) and ast.unparse(x.target) == "descriptor_text" for x in ast.walk(lp.stmt))]
     if loops and ast.unparse(loops[0].stmt.iter) == "key_records_to_save" and t2 and loops[0].stmt.lineno > t2[0].lineno:
@@ -817,6 +833,12 @@ def _xpub_standins():
 
 
 def c16_16(ctx):
+    if not hasattr(ctx, "_c16_16"):
+        ctx._c16_16 = _c16_16(ctx)
+    return ctx._c16_16
+
+
+def _c16_16(ctx):
     """the descriptor text is a function of the set of cosigner keys: P2WSHSortedMulti.__init__ evaluated for 1..3 key records in every order
     they can be supplied and with every mix of SLIP-132 spellings of the same keys (tpub / Vpub / Upub …) gives one text -- the key records
     ordered by the normalised xpub that appears in it -- and the Bitcoin Core checksum of that text.  Key parsing is a stand-in"""
@@ -826,7 +848,7 @@ def c16_16(ctx):
     mod, fn = rl.get(ctx, spec)
     hooks = _xpub_standins()
     # key ids chosen so that the order of the raw strings differs from the order of the normalised ones for some spellings
-    keys = [("KB", "aaaaaaaa", "m/48h/1h/0h/2h", 0), ("KA", "bbbbbbbb", "m/45'/0", 3), ("KC", "cccccccc", "m", 10)]
+    keys = [("KB", "0f056943", "m/48h/1h/0h/2h", 0), ("KA", "bbbbbbbb", "m/45'/0", 3), ("KC", "c7d0648a", "m", 10)]
     n, texts = 0, {}
     quick = getattr(ctx, "tier", "quick") != "thorough"
     for size in (1, 2, 3):
